@@ -47,6 +47,23 @@ def frames(o):
     return int(m.group(1)) if m else None
 
 
+def slots(o):
+    m = re.search(r'stack-slots=Some\((\d+)\)', o)
+    return int(m.group(1)) if m else None
+
+
+# slot leaks (no extra frame, but cells left below the rebuilt frame) only show in the size the stack vector had to grow to:
+# the same loops with 3000 iterations must not need more than the initial 256 slots
+LEAK_CONTEXTS = [
+    ('variadic-no-args', "(define k 0);;(define (loop . args) (set! k (+ k 1)) (if (> k 3000) (car '()) (loop)))", "(loop)"),
+    ('argc-grows', "(define (loop n) (if (= n 0) (car '()) (two (- n 1) n)));;(define (two n m) (if (= n 0) (car '()) (loop (- n 1))))", "(loop 3000)"),
+    ('argc-grows-3', "(define (loop n) (if (= n 0) (car '()) (three (- n 1) n n)));;(define (three n a b) (if (= n 0) (car '()) (loop (- n 1))))", "(loop 3000)"),
+    ('variadic-extra', "(define (loop n . rest) (if (= n 0) (car '()) (loop (- n 1) n n)))", "(loop 3000)"),
+    ('apply-spread', "(define (loop n) (if (= n 0) (car '()) (apply loop (list (- n 1)))))", "(loop 3000)"),
+    ('plain', "(define (loop n) (if (= n 0) (car '()) (loop (- n 1))))", "(loop 3000)"),
+]
+
+
 def search(prop, violations):
     sess = []
     for name, defs in CONTEXTS:
@@ -61,6 +78,13 @@ def search(prop, violations):
         if fa != fb:
             return {'session': sess[2 * k + 1], 'observed': b, 'demanded': 'the same control-stack depth as ' + a + ' (30 iterations of the same loop)',
                     'kind': 'control stack grows with the number of tail calls (%s)' % name}
+    lsess = [defs + ";;#trace " + call for (name, defs, call) in LEAK_CONTEXTS]
+    louts = replay.run_sessions(lsess)
+    for (name, defs, call), o in zip(LEAK_CONTEXTS, louts):
+        n = slots(o)
+        if n is not None and n > 256:
+            return {'session': lsess[LEAK_CONTEXTS.index((name, defs, call))], 'observed': o, 'demanded': 'a stack vector that never had to grow beyond its initial 256 slots (3000 tail calls)',
+                    'kind': 'stack slots leak with the number of tail calls (%s)' % name}
     return None
 
 
